@@ -802,6 +802,44 @@ open Gama Gama.Lin
 """
 
 
+def gen_reset_guard(loc):
+    """network.cpp, prologue of LocalNetwork::project_equations(): which points get their cached
+    unknown indexes zeroed before a new LocalLinearization (maxn = 0) numbers the unknowns"""
+    try:
+        nsrc = strip_comments((loc / "network.cpp").read_text())
+    except OSError as e:
+        broken(f"cannot read network.cpp: {e}")
+    m = re.search(r"void\s+LocalNetwork::project_equations\(\)\s*\{", nsrc)
+    if not m:
+        broken("network.cpp: LocalNetwork::project_equations() not found")
+    i, depth = m.end(), 1
+    while depth and i < len(nsrc):
+        depth += (nsrc[i] == "{") - (nsrc[i] == "}")
+        i += 1
+    body = nsrc[m.end():i]
+    k = body.find("LocalLinearization")
+    if k < 0 or not re.search(r"LocalLinearization\s+\w+\(PD\s*,", body):
+        broken("network.cpp: project_equations no longer constructs a fresh LocalLinearization(PD, …)")
+    pro = body[:k]
+    mm = re.search(r"for\s*\(\s*PointData::iterator\s+(\w+)\s*=\s*PD\.begin\(\)\s*;\s*\1\s*!=\s*PD\.end\(\)\s*;\s*\+\+\1\s*\)\s*\{"
+                   r"\s*LocalPoint\s*&\s*(?P<v>\w+)\s*=\s*\(\*\1\)\.second;\s*if\s*\((?P<cond>[^{;]*)\)\s*\{"
+                   r"\s*(?P=v)\.index_y\(\)\s*=\s*(?P=v)\.index_x\(\)\s*=\s*(?P=v)\.index_z\(\)\s*=\s*0\s*;\s*\}\s*\}", pro)
+    if not mm:
+        broken("network.cpp: index reset loop of project_equations has an unexpected shape")
+    if not re.search(r"if\s*\(StandPoint\*\s*(\w+)\s*=\s*dynamic_cast<StandPoint\*>\(\*\w+\)\)\s*\1->index_orientation\(0\);", pro):
+        broken("network.cpp: orientation indexes are no longer reset for every StandPoint cluster")
+    g = Gen("project_equations", "fn")
+    g.points[mm.group("v")] = "p"
+    pp = P(tokenize(mm.group("cond"), "network.cpp") + [("op", ";")], "network.cpp:project_equations")
+    cond = pp.expr()
+    if pp.peek() != ";":
+        broken("network.cpp: reset guard expression")
+    return ("/-- network.cpp `LocalNetwork::project_equations()`: `if (" + " ".join(mm.group("cond").split()) +
+            ") b.index_y() = b.index_x() = b.index_z() = 0;` for every point of PD; every\n"
+            "    `StandPoint::index_orientation(0)`; then a new `LocalLinearization` (`maxn = 0`) -/\n"
+            f"def resetGuard {{K : Type}} (p : Pt K) : Bool := {g.cond(cond)}\n")
+
+
 def translate_text(repo):
     loc = Path(repo) / "lib" / "gnu_gama" / "local"
     try:
@@ -863,6 +901,7 @@ def translate_text(repo):
     out.append("/-- `visit(<Class>* e) { <fn>(e); }` -/\n"
                "def visit {K : Type} [TrigScalar K] : String → Option (Nat → Obs K → Except LinErr (LinOut K))\n" +
                "".join(f'  | "{c}" => some {f}\n' for c, f in visits) + "  | _ => none\n")
+    out.append(gen_reset_guard(loc))
     out.append("end Gama.Gen.Lin\n")
     return "\n".join(out)
 
